@@ -345,8 +345,9 @@ static int walk(unsigned long seedv, long steps, const char * outpath) {
 static void resp_case(FILE * f, int code, int hasinfo, const char * text, size_t tlen) {
     fresh();
     if (hasinfo) {
-        char * tmp = malloc(tlen + 1);
-        memcpy(tmp, text, tlen); tmp[tlen] = 0;
+        /* a counted text in a buffer of exactly its length (one byte for the empty text, whose length 0 means "up to the NUL") */
+        char * tmp = malloc(tlen ? tlen : 1);
+        if (tlen) memcpy(tmp, text, tlen); else tmp[0] = 0;
         SCPI_ErrorPushEx(&ctx, (int16_t) code, tmp, tlen);
         __real_free(tmp);
     } else SCPI_ErrorPush(&ctx, (int16_t) code);
